@@ -64,14 +64,17 @@ fn default_t() -> u64 {
     2
 }
 
-const WEIGHTS: [[u32; NTYPES]; 6] = [[5, 2, 2, 1, 1, 1], [1, 1, 1, 1, 1, 1], [12, 1, 1, 1, 1, 1], [0, 0, 1, 1, 0, 1], [3, 3, 0, 2, 1, 0], [2, 0, 3, 1, 2, 0]];
+/// the last entry is the "long clean run": only error-free frame types until frame 600..=899 of a
+/// decoder, every frame in error from then on (used with a single worker, so that no per-type count
+/// reaches the base B of the iteration encoding)
+const WEIGHTS: [[u32; NTYPES]; 7] = [[5, 2, 2, 1, 1, 1], [1, 1, 1, 1, 1, 1], [12, 1, 1, 1, 1, 1], [0, 0, 1, 1, 0, 1], [3, 3, 0, 2, 1, 0], [2, 0, 3, 1, 2, 0], [600, 400, 0, 0, 0, 0]];
 
 fn base_strategy(tier: Tier) -> impl Strategy<Value = Case> {
     let ncpu: BoxedStrategy<usize> = match tier {
         Tier::Quick => prop_oneof![Just(1usize), Just(2), Just(3), Just(5), Just(8), Just(16)].boxed(),
         Tier::Thorough => (1usize..=16).boxed(),
     };
-    (ncpu, 0usize..16, (any::<bool>(), prop_oneof![1 => Just(1u64), 3 => Just(2u64), 1 => Just(3u64), 1 => Just(4u64)]), prop_oneof![1 => Just(0u64), 24 => 1u64..=40], 0u32..4, 0usize..WEIGHTS.len(), 1usize..=3, any::<u64>()).prop_map(|(ncpu, cpu_offset, (bch, bch_t), max_err, delay_mode, w, points, seed)| Case { ncpu, cpu_offset, bch, bch_t, max_err, delay_mode, weights: WEIGHTS[w], points, seed, inject: Inject::None, no_reporter: seed % 5 == 0, chain: if seed % 3 == 0 { ((seed / 3) % 4) as u8 } else { 0 } })
+    (ncpu, 0usize..16, (any::<bool>(), prop_oneof![1 => Just(1u64), 3 => Just(2u64), 1 => Just(3u64), 1 => Just(4u64)]), prop_oneof![1 => Just(0u64), 24 => 1u64..=40], 0u32..4, 0usize..WEIGHTS.len(), 1usize..=3, any::<u64>()).prop_map(|(ncpu, cpu_offset, (bch, bch_t), max_err, delay_mode, w, points, seed)| Case { ncpu: if w == WEIGHTS.len() - 1 { 1 } else { ncpu }, cpu_offset, bch, bch_t, max_err, delay_mode: if w == WEIGHTS.len() - 1 { delay_mode % 2 } else { delay_mode }, weights: WEIGHTS[w], points, seed, inject: Inject::None, no_reporter: seed % 5 == 0, chain: if seed % 3 == 0 { ((seed / 3) % 4) as u8 } else { 0 } })
 }
 
 fn strategy(tier: Tier) -> BoxedStrategy<Case> {
@@ -134,6 +137,7 @@ fn check(case: &Case, p: &mut Probe) -> Check {
                 "zero-frame-error-target" => "zero-frame-error-target",
                 "ebn0-list-with-repeats" => "ebn0-list-with-repeats",
                 "ebn0-list-descending" => "ebn0-list-descending",
+                "another-simulation-running-in-the-process" => "another-simulation-running-in-the-process",
                 "puncturing-interleaving-or-8psk" => "puncturing-interleaving-or-8psk",
                 _ => "other",
             };
@@ -194,6 +198,10 @@ impl Drop for SDec {
 
 fn frame_type(seed: u64, weights: &[u32; NTYPES], id: usize, j: u64) -> (usize, u64) {
     let h = splitmix(seed ^ splitmix(id as u64 * 1_000_003 + j));
+    if weights[2..].iter().all(|&w| w == 0) && j >= 600 + splitmix(seed ^ id as u64) % 300 {
+        // long clean run: from here on every frame of this decoder has k bit errors
+        return (5, h >> 32);
+    }
     let tot: u32 = weights.iter().sum();
     let mut x = (h % tot as u64) as u32;
     let mut t = 0;
@@ -458,6 +466,49 @@ fn run_case(c: &Case) -> serde_json::Value {
     };
     let viol = |key: &str, msg: String| json!({"status": "violation", "key": key, "msg": format!("{msg} [{c:?}]"), "classes": [], "nontrivial": true});
     let factory = Scripted(sh.clone());
+    // one case in four (no injected fault): a second, unrelated simulation keeps running in the same
+    // process on another thread while the simulation under test runs: a small code, a decoder that
+    // fails every frame, one frame error per run, run after run until the main simulation is over.
+    // Its results are not judged; the simulation under test must not notice it.
+    let background_stop = Arc::new(AtomicBool::new(false));
+    let background = if c.seed % 4 == 1 && c.inject == Inject::None {
+        let stop = background_stop.clone();
+        let hb = hh.clone();
+        Some(std::thread::spawn(move || {
+            #[derive(Clone, Debug)]
+            struct Failing;
+            impl std::fmt::Display for Failing {
+                fn fmt(&self, f: &mut std::fmt::Formatter<'_>) -> std::fmt::Result {
+                    write!(f, "Failing")
+                }
+            }
+            #[derive(Debug)]
+            struct FailingDecoder;
+            impl LdpcDecoder for FailingDecoder {
+                fn decode(&mut self, llrs: &[f64], max: usize) -> Result<DecoderOutput, DecoderOutput> {
+                    let mut cw: Vec<u8> = llrs.iter().map(|&x| u8::from(x <= 0.0)).collect();
+                    if let Some(b) = cw.first_mut() {
+                        *b ^= 1;
+                    }
+                    Err(DecoderOutput { codeword: cw, iterations: max })
+                }
+            }
+            impl DecoderFactory for Failing {
+                fn build_decoder(&self, _h: SparseMatrix) -> Box<dyn LdpcDecoder> {
+                    Box::new(FailingDecoder)
+                }
+            }
+            while !stop.load(Ordering::SeqCst) {
+                let _ = std::panic::catch_unwind(std::panic::AssertUnwindSafe(|| {
+                    if let Ok(t) = BerTest::<Bpsk, _>::new(hb.clone(), Failing, None, None, 1, 3, &[30.0], None, 0) {
+                        let _ = t.run();
+                    }
+                }));
+            }
+        }))
+    } else {
+        None
+    };
     // run
     let result: Result<Result<Vec<Statistics>, String>, String> = guarded(|| {
         match c.inject {
@@ -475,13 +526,18 @@ fn run_case(c: &Case) -> serde_json::Value {
     // "the run joins all workers": sampled at the very moment run() returns
     let (built_at_return, dropped_at_return) = (sh.built.load(Ordering::SeqCst), sh.dropped.load(Ordering::SeqCst));
     returned.store(true, Ordering::SeqCst);
+    background_stop.store(true, Ordering::SeqCst);
     let _ = monitor.join();
+    // (the background thread is not joined: if its last run does not come back, that is not this case's verdict)
     let reports = std::mem::take(&mut *reports.lock().unwrap());
     let built = sh.built.load(Ordering::SeqCst);
     let dropped = sh.dropped.load(Ordering::SeqCst);
     let produced = *sh.produced.lock().unwrap();
     let frames: u64 = produced.iter().sum();
     let mut classes: Vec<&str> = Vec::new();
+    if background.is_some() {
+        classes.push("another-simulation-running-in-the-process");
+    }
     if c.bch {
         classes.push("bch");
     }
@@ -627,7 +683,7 @@ pub fn property() -> Property {
         subs: vec![
             Box::new(Sub {
                 name: "statistics",
-                rule: "each case in a child process pinned (sched_setaffinity) to 1..16 CPUs, so that the engine starts that many workers; BPSK, 40 dB, no puncturing (a third of the cases: parity blocks punctured with an interleaver of 4 or -8 columns, or 8PSK with puncturing, block sizes that fit the transmitted but not the codeword length): the hard decision of the LLRs of the systematic part is the message; a scripted decoder (per decoder instance and frame: type and delay from a hash of the case seed; delays none / yield / 0-200 us sleeps / stalled even workers) returns it with e_t systematic bits flipped (parity bits too in some types), verdict v_t and iteration count B^t (B = 1024) for six frame types (0, 0, 1, T = exactly the outer-code threshold, T+1 with a success verdict = false decode, k bit errors; T drawn from 1..=4), so total_iterations decodes uniquely into counted frames per type and every reported number is predicted exactly (frames, frame errors, false decodes, systematic bit errors, correct-frame iterations, outer-code accounting with threshold T, BER/FER/averages as ratios, stop exactly at max_frame_errors in 1..=40 (one case in 25: a target of 0, which every point meets before its first frame), counted <= produced per type); report stream: same identities, frame counts non-decreasing per point, last report = returned entry, 'finished' exactly once and last; all decoders built are dropped when run() returns; with one worker the counted set is exactly the script prefix; 1-3 Eb/N0 points (ascending, descending, with a value repeated or all equal; lists with repeats run without a reporter), with/without outer-code threshold; one case in five runs without a reporter (return value only); non-trivial = >= 2 workers and >= 3 frame types counted; inner = frames decoded",
+                rule: "each case in a child process pinned (sched_setaffinity) to 1..16 CPUs, so that the engine starts that many workers; BPSK, 40 dB, no puncturing (a third of the cases: parity blocks punctured with an interleaver of 4 or -8 columns, or 8PSK with puncturing, block sizes that fit the transmitted but not the codeword length): the hard decision of the LLRs of the systematic part is the message; a scripted decoder (per decoder instance and frame: type and delay from a hash of the case seed; delays none / yield / 0-200 us sleeps / stalled even workers) returns it with e_t systematic bits flipped (parity bits too in some types), verdict v_t and iteration count B^t (B = 1024) for six frame types (one script in seven: a single worker decodes 600..=899 error-free frames in a row before its first frame error) (0, 0, 1, T = exactly the outer-code threshold, T+1 with a success verdict = false decode, k bit errors; T drawn from 1..=4), so total_iterations decodes uniquely into counted frames per type and every reported number is predicted exactly (frames, frame errors, false decodes, systematic bit errors, correct-frame iterations, outer-code accounting with threshold T, BER/FER/averages as ratios, stop exactly at max_frame_errors in 1..=40 (one case in 25: a target of 0, which every point meets before its first frame), counted <= produced per type); report stream: same identities, frame counts non-decreasing per point, last report = returned entry, 'finished' exactly once and last; all decoders built are dropped when run() returns; with one worker the counted set is exactly the script prefix; 1-3 Eb/N0 points (ascending, descending, with a value repeated or all equal; lists with repeats run without a reporter), with/without outer-code threshold; one case in five runs without a reporter (return value only); one case in four while a second, unrelated simulation keeps running on another thread of the same process; non-trivial = >= 2 workers and >= 3 frame types counted; inner = frames decoded",
                 cases: |t| t.pick(6_000, 150_000),
                 strategy,
                 check,
